@@ -143,6 +143,9 @@ func newFarm(c *c20Case, payload map[int][]byte) *farm {
 
 func (f *farm) serve(w http.ResponseWriter, r *http.Request) {
 	arrive := time.Now()
+	if ns, err := strconv.ParseInt(r.Header.Get("X-Harness-Sent"), 10, 64); err == nil && ns > 0 {
+		arrive = time.Unix(0, ns) // when the probe left the explorer (see stampTransport)
+	}
 	id, err := strconv.Atoi(strings.TrimPrefix(r.URL.Path, "/t/"))
 	if err != nil {
 		w.WriteHeader(404)
@@ -215,6 +218,7 @@ type period struct {
 }
 
 type pollObs struct {
+	before time.Time // taken before the read, at after it: the observation is attributed to a period only if both lie in it
 	at     time.Time
 	nonNil bool
 	health string
@@ -228,11 +232,11 @@ type postEv struct {
 }
 
 const c20Config = `global:
-  scrape_interval: 15s
-  scrape_timeout: 10s
+  scrape_interval: 300s
+  scrape_timeout: 120s
 scrape_configs:
 - job_name: ja
-  scrape_timeout: 3s
+  scrape_timeout: 120s
   metric_relabel_configs:
   - source_labels: [__name__]
     regex: drop_.*
@@ -240,7 +244,7 @@ scrape_configs:
 %s`
 
 const c20JobB = `- job_name: jb
-  scrape_timeout: 3s
+  scrape_timeout: 120s
 `
 
 func runC20(w *core.WorkerCtx, idx int) *core.CaseResult {
@@ -268,6 +272,7 @@ func runC20(w *core.WorkerCtx, idx int) *core.CaseResult {
 		res.Inconcl = "config: " + err.Error()
 		return res
 	}
+	p.stampClients("ja", "jb")
 
 	groupsFor := func(include func(t *c20Target) bool) map[string][]*targetgroup.Group {
 		by := map[string][]map[string]string{"ja": {}, "jb": {}}
@@ -413,6 +418,7 @@ func runC20(w *core.WorkerCtx, idx int) *core.CaseResult {
 			if err := p.cm.ReloadFromRaw([]byte(fmt.Sprintf(c20Config, jb))); err != nil {
 				return err
 			}
+			p.stampClients("ja", "jb")
 			hi := time.Now()
 			if c.DropJobB {
 				mu.Lock()
@@ -428,10 +434,29 @@ func runC20(w *core.WorkerCtx, idx int) *core.CaseResult {
 			return nil
 		}},
 	}
-	end := time.Duration(c.MaxPrefix)*retryInterval + retryInterval + 3500*time.Millisecond + time.Duration(c.ReaddAt)*time.Millisecond
+	end := time.Duration(c.MaxPrefix)*retryInterval + retryInterval + 8500*time.Millisecond + time.Duration(c.ReaddAt)*time.Millisecond
 	si := 0
-	for time.Since(t0) < end {
-		if si < len(steps) && time.Since(t0) >= time.Duration(steps[si].at)*time.Millisecond {
+	// the removal waits for the first sweep: while targets are still queued for their FIRST probe (one worker, 300
+	// targets, a loaded machine), a target that leaves and comes back has a probe of its old incarnation in the
+	// queue, which is sent whenever its turn comes - legitimately - and cannot be told from a probe of the new one
+	var shift time.Duration
+	sweepDone := func() bool {
+		fm.mu.Lock()
+		defer fm.mu.Unlock()
+		mu.Lock()
+		defer mu.Unlock()
+		for id, pr := range present {
+			if pr && fm.count[id] == 0 {
+				return false
+			}
+		}
+		return true
+	}
+	for time.Since(t0) < end+shift {
+		if si == 0 && len(steps) > 0 && time.Since(t0) >= time.Duration(steps[0].at)*time.Millisecond+shift && !sweepDone() && time.Since(t0) < 90*time.Second {
+			shift += 100 * time.Millisecond
+		}
+		if si < len(steps) && time.Since(t0) >= time.Duration(steps[si].at)*time.Millisecond+shift {
 			if err := steps[si].do(); err != nil {
 				res.Violate("C20/pipeline-stuck", "discovery update / reload at step %d did not go through: %v", si, err)
 				return res
@@ -451,8 +476,9 @@ func runC20(w *core.WorkerCtx, idx int) *core.CaseResult {
 			mu.Lock()
 			h := hashOf[id]
 			mu.Unlock()
+			pollStart := time.Now()
 			st := p.exp.Get(h)
-			o := pollObs{nonNil: st != nil}
+			o := pollObs{nonNil: st != nil, before: pollStart}
 			if st != nil && !w.Race {
 				// unsynchronised read, exactly as the coordinator does it; skipped in the -race pass
 				o.health, o.series, o.total = string(st.Health), st.Series, st.TotalSeries
@@ -486,8 +512,21 @@ func runC20(w *core.WorkerCtx, idx int) *core.CaseResult {
 	res.AddStat("targets", int64(len(c.Targets)))
 	res.AddStat("probes_observed", int64(len(evs)))
 	var witness []string
+	type pendingViol struct {
+		sig, msg string
+		id       int
+	}
+	var sink *[]pendingViol // non-nil while a presence period is judged tentatively
+	var commit func(sig string, id int, msg string)
 	bad := func(sig string, id int, format string, a ...interface{}) {
-		res.Violate(sig, "target %d (%+v): %s", id, *fm.targets[id], fmt.Sprintf(format, a...))
+		if sink != nil {
+			*sink = append(*sink, pendingViol{sig: sig, id: id, msg: fmt.Sprintf(format, a...)})
+			return
+		}
+		commit(sig, id, fmt.Sprintf(format, a...))
+	}
+	commit = func(sig string, id int, msg string) {
+		res.Violate(sig, "target %d (%+v): %s", id, *fm.targets[id], msg)
 		if len(witness) < 6 {
 			var tl []string
 			for _, e := range byID[id] {
@@ -504,14 +543,12 @@ func runC20(w *core.WorkerCtx, idx int) *core.CaseResult {
 			witness = append(witness, fmt.Sprintf("target %d probes %v periods %v", id, tl, pl))
 		}
 	}
-	endAll := t0.Add(end)
+	endAll := t0.Add(end + shift)
 	for _, t := range c.Targets {
 		id := t.ID
 		es := byID[id]
 		sort.Slice(es, func(i, j int) bool { return es[i].arrive.Before(es[j].arrive) })
-		if maxInfl[id] > 1 {
-			bad("C20/more-than-one-probe-in-flight", id, "%d probes were in flight at the same time", maxInfl[id])
-		}
+		_ = maxInfl // the farm's own count mixes presence periods; overlap is judged per period below
 		res.AddSet("probe_counts", fmt.Sprintf("prefix%d/removal-%s/probes%d", t.Prefix, t.Removal, len(es)))
 		for pi, pr := range periods[id] {
 			pEnd := endAll
@@ -524,76 +561,124 @@ func runC20(w *core.WorkerCtx, idx int) *core.CaseResult {
 					in = append(in, e)
 				}
 			}
-			// probed once asked for (bounded progress: within 10 s)
-			var firstAsk time.Time
-			for _, o := range polls[id] {
-				if o.nonNil && !o.at.Before(pr.startHi) && o.at.Before(pEnd) {
-					firstAsk = o.at
-					break
-				}
-			}
-			if !firstAsk.IsZero() && pEnd.Sub(firstAsk) > 10*time.Second {
-				got := false
+			strayBudget := 0
+			if pi > 0 {
+				strayBudget = 1
+				prev := periods[id][pi-1]
 				for _, e := range es {
-					if !e.arrive.Before(pr.startLo) && e.arrive.Before(firstAsk.Add(10*time.Second)) {
-						got = true
+					if e.arrive.After(prev.endLo) && e.arrive.Before(pr.startHi) {
+						strayBudget = 0 // the old incarnation's outstanding probe was sent between the periods
 					}
 				}
-				res.AddStat("first_probe_obligations", 1)
-				if !got {
-					bad("C20/never-probed", id, "asked for at %d ms (period %d) but no probe arrived within 10 s", firstAsk.Sub(t0).Milliseconds(), pi)
-				}
 			}
-			var success *probeEv
-			for k := range in {
-				e := in[k]
-				if success != nil {
-					bad("C20/probe-after-success", id, "probe at %d ms although the probe that left at %d ms succeeded (same presence period)", e.Arrive, success.Depart)
-					break
-				}
-				if k > 0 && !in[k-1].OK {
-					gap := e.arrive.Sub(in[k-1].depart)
-					if gap < retryInterval {
-						bad("C20/retry-too-early", id, "probe at %d ms only %d ms after the failed probe that left at %d ms (retry interval %v)", e.Arrive, gap.Milliseconds(), in[k-1].Depart, retryInterval)
-					}
-					res.AddStat("retries_observed", 1)
-				}
-				if e.OK && e.depart.Before(pEnd) {
-					ee := e
-					success = &ee
-				}
-			}
-			// a failed probe is retried (bounded progress: within interval + 10 s) while the target stays
-			if len(in) > 0 && success == nil {
-				last := in[len(in)-1]
-				if !last.OK && pEnd.Sub(last.depart) > retryInterval+10*time.Second {
-					bad("C20/retry-missing", id, "probe that left at %d ms failed, the target stayed discovered for %d more ms, no retry arrived", last.Depart, pEnd.Sub(last.depart).Milliseconds())
-				}
-			}
-			if success != nil {
-				res.AddStat("periods_with_success", 1)
-			}
-			// estimate as seen through Get
-			if !w.Race {
-				for _, o := range polls[id] {
-					if !o.nonNil || o.at.Before(pr.startHi) || !o.at.Before(pEnd) {
-						continue
-					}
-					succeeded := success != nil && success.depart.Before(o.at)
-					if o.health == "up" {
-						if !succeeded {
-							bad("C20/healthy-without-successful-probe", id, "explorer reports health up (series %d) at %d ms but no probe of this presence period had succeeded", o.series, o.at.Sub(t0).Milliseconds())
-							break
-						}
-						if o.series != kept[id] || o.total != total[id] {
-							bad("C20/estimate-wrong", id, "explorer reports series/total %d/%d, the successful probe's payload has %d/%d", o.series, o.total, kept[id], total[id])
-							break
-						}
-					} else if succeeded && o.at.Sub(success.depart) > 3*time.Second {
-						bad("C20/estimate-missing", id, "a probe succeeded at %d ms but %d ms later the explorer still reports health %q", success.Depart, o.at.Sub(success.depart).Milliseconds(), o.health)
+			// the rules of one presence period over the probes that left the explorer in it. A target that left discovery
+			// and came back can have ONE probe of its old incarnation still queued (it was asked for, or its retry was
+			// due, before it left): that probe is sent whenever its turn comes, possibly inside the new period, and
+			// the statement allows it ("until ... the target disappears from discovery"); so a later period is first
+			// judged as it is and, if that fails and the old incarnation's one probe has not been seen between the two
+			// periods, once more without one of its probes - any choice that satisfies every rule is accepted.
+			judge := func(in []probeEv, counting bool) []pendingViol {
+				var out []pendingViol
+				sink = &out
+				defer func() { sink = nil }()
+				// at most one probe in flight: probes that left the explorer within this presence period must not overlap
+				// (a probe of the previous period that is still on its way does not count: the target was gone in between)
+				for i := 1; i < len(in); i++ {
+					if in[i].arrive.Before(in[i-1].depart) && in[i-1].arrive.Before(in[i].depart) {
+						bad("C20/more-than-one-probe-in-flight", id, "two probes of one presence period overlap: one left the explorer at %d ms and was answered at %d ms, the next left at %d ms", in[i-1].arrive.Sub(t0).Milliseconds(), in[i-1].depart.Sub(t0).Milliseconds(), in[i].arrive.Sub(t0).Milliseconds())
 						break
 					}
 				}
+				// probed once asked for (bounded progress: within 10 s)
+				var firstAsk time.Time
+				for _, o := range polls[id] {
+					if o.nonNil && !o.before.Before(pr.startHi) && o.at.Before(pEnd) {
+						firstAsk = o.at
+						break
+					}
+				}
+				if !firstAsk.IsZero() && pEnd.Sub(firstAsk) > 10*time.Second {
+					got := false
+					for _, e := range es {
+						if !e.arrive.Before(pr.startLo) && e.arrive.Before(firstAsk.Add(10*time.Second)) {
+							got = true
+						}
+					}
+					if counting {
+						res.AddStat("first_probe_obligations", 1)
+					}
+					if !got {
+						bad("C20/never-probed", id, "asked for at %d ms (period %d) but no probe arrived within 10 s", firstAsk.Sub(t0).Milliseconds(), pi)
+					}
+				}
+				var success *probeEv
+				for k := range in {
+					e := in[k]
+					if success != nil {
+						bad("C20/probe-after-success", id, "probe at %d ms although the probe that left at %d ms succeeded (same presence period)", e.Arrive, success.Depart)
+						break
+					}
+					if k > 0 && !in[k-1].OK {
+						gap := e.arrive.Sub(in[k-1].depart)
+						if gap < retryInterval {
+							bad("C20/retry-too-early", id, "probe at %d ms only %d ms after the failed probe that left at %d ms (retry interval %v)", e.Arrive, gap.Milliseconds(), in[k-1].Depart, retryInterval)
+						}
+						if counting {
+							res.AddStat("retries_observed", 1)
+						}
+					}
+					if e.OK && e.depart.Before(pEnd) {
+						ee := e
+						success = &ee
+					}
+				}
+				// a failed probe is retried (bounded progress: within interval + 10 s) while the target stays
+				if len(in) > 0 && success == nil {
+					last := in[len(in)-1]
+					if !last.OK && pEnd.Sub(last.depart) > retryInterval+15*time.Second {
+						bad("C20/retry-missing", id, "probe that left at %d ms failed, the target stayed discovered for %d more ms, no retry arrived", last.Depart, pEnd.Sub(last.depart).Milliseconds())
+					}
+				}
+				if success != nil && counting {
+					res.AddStat("periods_with_success", 1)
+				}
+				// estimate as seen through Get
+				if !w.Race {
+					for _, o := range polls[id] {
+						if !o.nonNil || o.before.Before(pr.startHi) || !o.at.Before(pEnd) {
+							continue
+						}
+						succeeded := success != nil && success.depart.Before(o.at)
+						if o.health == "up" {
+							if !succeeded {
+								bad("C20/healthy-without-successful-probe", id, "explorer reports health up (series %d) at %d ms but no probe of this presence period had succeeded", o.series, o.at.Sub(t0).Milliseconds())
+								break
+							}
+							if o.series != kept[id] || o.total != total[id] {
+								bad("C20/estimate-wrong", id, "explorer reports series/total %d/%d, the successful probe's payload has %d/%d", o.series, o.total, kept[id], total[id])
+								break
+							}
+						} else if succeeded && o.at.Sub(success.depart) > 12*time.Second {
+							bad("C20/estimate-missing", id, "a probe succeeded at %d ms but %d ms later the explorer still reports health %q", success.Depart, o.at.Sub(success.depart).Milliseconds(), o.health)
+							break
+						}
+					}
+				}
+				return out
+			}
+			pv := judge(in, true)
+			if len(pv) > 0 && pi > 0 && strayBudget > 0 {
+				for k := range in {
+					rest := append(append([]probeEv{}, in[:k]...), in[k+1:]...)
+					if len(judge(rest, false)) == 0 {
+						pv = nil
+						res.AddStat("periods_judged_without_one_probe_of_the_previous_incarnation", 1)
+						break
+					}
+				}
+			}
+			for _, v := range pv {
+				commit(v.sig, v.id, v.msg)
 			}
 			// after the target left discovery: at most one further probe
 			if !pr.endHi.IsZero() {
@@ -688,7 +773,7 @@ func init() {
 		Level: "exploration",
 		Rule: "case = the real Explore + scrape.Manager + TargetsDiscovery wired as in cmd/kvass/coordinator.go, 30-300 loopback HTTP targets with scripted latency (0-300 ms), 0-2 (thorough: up to 4) failing probes (HTTP 500, 204, connection closed mid-body with FIN or with a TCP reset) before the first success, 1-200 explorer workers, the real 5 s retry interval; " +
 			"during the run a discovery update removes a third of the targets inside the retry sleep, a later one re-adds most of them, then a reload keeps or drops job jb; every second case also runs the real coordinator against a stub shard with unlimited room; " +
-			"monitors: arrival/departure/outcome/in-flight count of every request at the targets, Explore.Get results polled every 40 ms (not in the -race pass), POST bodies at the stub shard; oracle = per-target probe-lifecycle automaton per presence period (probed once asked for, single flight, retry no earlier than the interval and within interval+10 s, silence after success, at most one probe after removal), estimate = payload counts only after a success, no assignment before a successful probe; " +
+			"monitors: arrival/departure/outcome/in-flight count of every request at the targets, Explore.Get results polled every 40 ms (not in the -race pass), POST bodies at the stub shard; oracle = per-target probe-lifecycle automaton per presence period (probed once asked for, single flight, retry no earlier than the interval and within interval+15 s, silence after success, at most one probe after removal), estimate = payload counts only after a success, no assignment before a successful probe; " +
 			"plus cases in which a job's HTTP client cannot be built when its targets are first asked for (CA file missing at that reload) and can after a later reload: within interval + 10 s of the repair every target must have been probed and carry a healthy estimate; and cases in which a reload changes a job's metric relabel rules and params before a new target of that job is probed for the first time (estimate under the new rules, request with the new params); and cases with a configured param that some targets override through a __param_ label next to a configured param with three values (each selecting further series) (every probe carries its own target's params, whatever was probed before); " +
 			"plus 2/6 cases on the REAL coordinator binary (engine E7, --sd.init-timeout 6-8 s): one target answers 503 for good, another is added to the configuration 3 s after the start-up window has passed: the new one must be assigned (so it was probed) within 80 coordination cycles and the failing one must be probed again within 150; " +
 			"plus 1/4 flood cases: more than 10000 + workers targets are asked for in one period while every probe is held at the target until the asking stalls or ends (the explorer's queue holds 10000): every one must be probed exactly once and carry the probe's estimate; " +
@@ -696,7 +781,9 @@ func init() {
 			"a -race pass repeats 2 cases without harness reads; non-trivial = at least half of the targets were probed; distinct = parameter tuple + target script hash",
 		Assumptions: []string{
 			"the retry interval is the real unexported 5 s; lower bounds use server-side departure times, which can only make the measured gap smaller than the real one by less than the loopback latency (the oracle needs no tolerance because the retry sleep starts after the client saw the response)",
-			"upper bounds (10 s to first probe, interval+10 s to a retry) are bounded-progress restatements; workloads are sized so that one sweep over all targets takes < 4 s",
+			"the removal step waits until every target has been probed once (the first sweep), later steps keep their distance to it: a probe of a target's old incarnation that is still queued when the target comes back cannot be told from a probe of the new one",
+			"upper bounds (10 s to first probe, interval+15 s to a retry, 12 s from a successful answer to a healthy estimate) are bounded-progress restatements; workloads are sized so that one sweep over all targets takes < 4 s",
+			"every job's scrape_timeout is 120 s: no probe fails on the client side that the target answered successfully (a 3 s timeout did, at a load average of 300: the target's success and the explorer's view of the probe then differ)",
 		},
 		NumCases: func(tier string) int {
 			if tier == "thorough" {
